@@ -26,6 +26,9 @@ func nameRoles() []nameRole {
 		{"parameter", "func f(NAME int, b int) (int, int) {\n\tfor i := 0; i < 2; i++ {\n\t\tb = b + NAME\n\t}\n\treturn NAME, b\n}\nx, y := f(2, 3)\nprint(x, y)\n"},
 		{"function-name", "func NAME(a int) int {\n\treturn a + 1\n}\nfunc g(a int) int {\n\treturn NAME(a) * 2\n}\ns := []int{1}\ns[1] = g(1)\nu := \"tv\"\nprint(NAME(1), s[1], u[0:1])\n"},
 		{"loop-variable", "acc := 0\nfor NAME := 0; NAME < 3; NAME++ {\n\tacc = acc + NAME\n}\nfor i, NAME := range []int{4, 5} {\n\tacc = acc + i * NAME\n}\nprint(acc)\n"},
+		{"copy-destination", "src := []int{3, 7, 9}\nNAME := []int{}\nn := copy(NAME, src)\nprint(n, len(NAME), NAME[1], NAME[2])\n"},
+		{"global-next-to-function-local", "NAME := 1\nfunc g() int {\n\tx := 42\n\tNAME = NAME + 0\n\treturn x\n}\nfunc h(y int) int {\n\treturn y + g()\n}\nprint(g(), h(1), NAME)\n"},
+		{"local-next-to-callee-local", "func r() int {\n\tn := 20\n\treturn n\n}\nfunc f() int {\n\tNAME := 2\n\tk := r()\n\treturn k + NAME\n}\nprint(f())\n"},
 		{"slice-variable", "NAME := []string{\"a\"}\nNAME[1] = \"b\"\nc := []string{}\nprint(copy(c, NAME), len(NAME), NAME[1], c[0])\n"},
 	}
 }
